@@ -8,3 +8,5 @@ import GitBugModel.Props.C10
 import GitBugModel.Model.Dag
 import GitBugModel.Lemmas.PackSort
 import GitBugModel.Props.C03
+import GitBugModel.Props.C01
+import GitBugModel.Props.C02
